@@ -1,6 +1,7 @@
 import Zc.Proofs.SurviveHost
 import Zc.Proofs.SurviveComp
 import Zc.Proofs.SurviveRoute
+import Zc.Props.C15RouteQ
 /-! # C15 — survival with the routing and the outgoing queues composed in (C12/C11's reply model)
 
 `Zc.Props.C15`'s composed theorems assume three things about the uninterpreted residue `Rest`:
@@ -11,7 +12,7 @@ C12/C11 and run against the real cache model.  **`RouteOK` and `QueueOK` are the
 (`C15_routeOK`, `C15_queueOK`), so the survival theorems below assume only
 
 * `BaseOK` — the listeners that are neither browsers nor lookups (user `RecordUpdateListener`s, the
-  browsers' scheduler bookkeeping, `async_notify_all`) return normally and keep their invariant `I₀`;
+  waking of lookup futures, `async_notify_all`; the browsers' scheduler bookkeeping is now C10's `Sched2` inside `Comp.ingest`) return normally and keep their invariant `I₀`;
 * the composite invariant `CInv` (cache refines a duplicate-free store, C03's `IndexInv`, the data
   invariant `RegSafe` of what the application registered, no browser callback pending) with the residue
   invariant `Route.Inv` (`I₀`, and each queue has a timer iff it is non-empty and strictly increasing `send_after`s);
@@ -114,7 +115,7 @@ def exBase : Route.Base Unit String where
 example : Route.BaseOK exBase (fun _ => True) := fun r0 _ _ _ _ _ _ => ⟨r0, [], rfl, trivial⟩
 
 /-- the initial composite state (empty cache, registry, history and queues) satisfies the invariant -/
-example : CInv lower ettl (Route.Inv (fun _ : Unit => True)) ⟨{}, [], [], {}, none, ((), {})⟩ :=
+example : CInv lower ettl (Route.Inv (fun _ : Unit => True)) ⟨{}, [], [], [], {}, [], [], none, ((), {})⟩ :=
   CInv.init lower ettl (Route.Inv (fun _ : Unit => True)) ((), {})
     (show Route.Inv (fun _ : Unit => True) ((), {}) from ⟨trivial, Route.QShape.init, Route.QShape.init⟩)
 
